@@ -5,6 +5,7 @@
       "taken":[0|1 ..] (parsec_cmd_line_is_taken),
       "params":[[[tok,..] per instance] per option] (parsec_cmd_line_get_param(opt, inst, idx)),
       "tail":[tokens] (parsec_cmd_line_get_tail)}
+   tokens as in CmdLine.tla (LBase + n = "-<letters>"; short = -1: the declared options have their letter as short name);
    checked against Parse of CmdLine.tla: every declared option is reported with its instances and parameters, the
    remaining arguments are the tail, errors are flagged. *)
 EXTENDS CmdLine, IOUtils
@@ -12,13 +13,13 @@ VARIABLES l
 TraceLog == ndJsonDeserialize(IOEnv.TRACE)
 Ev == TraceLog[l]
 IsEv(e) == l <= Len(TraceLog) /\ Ev.e = e /\ l' = l + 1
-TInit == l = 1 /\ argv = <<>> /\ tab = [np |-> <<>>, short |-> 0] /\ res = [ok |-> TRUE, insts |-> <<>>, tail |-> <<>>]
+TInit == l = 1 /\ argv = <<>> /\ tab = [np |-> <<>>, short |-> 0] /\ res = [ok |-> TRUE, insts |-> <<>>, tail |-> <<>>, exact |-> TRUE]
 TReset == IsEv("Reset") /\ UNCHANGED <<argv, tab, res>>
 TParse == /\ IsEv("parse") /\ UNCHANGED <<argv, tab, res>>
           /\ LET t == [np |-> Ev.np, short |-> Ev.short]
                  r == Parse(<<0>> \o Ev.argv, t)
              IN /\ (Ev.rc = 0) = r.ok
-                /\ Ev.tail = r.tail
+                /\ r.exact => Ev.tail = r.tail
                 /\ \A o \in 1..NOpt :
                       /\ Ev.ninsts[o] = Len(InstsOf(r, o))
                       /\ (Ev.taken[o] = 1) = (Len(InstsOf(r, o)) > 0)
